@@ -153,6 +153,21 @@ func GenRich(r *vh.Rand, tag string) (*Universe, string) {
 	return u, "rich-" + why
 }
 
+// GenDistinctPkgs: n messages, each in a proto package of its own; some have a field of a message of an earlier package.
+// First uses of these types on one shared cache each meet a package the cache has not seen.
+func GenDistinctPkgs(r *vh.Rand, tag string) (*Universe, string) {
+	u := &Universe{Tag: tag}
+	n := r.Range(3, 6)
+	for i := 0; i < n; i++ {
+		nd := Node{Kind: KMsg, Pkg: i, Refs: []int{}, Shape: []int{}}
+		if i > 0 && r.Chance(35) {
+			nd.Refs, nd.Shape = []int{r.Intn(i)}, []int{FSingle}
+		}
+		u.Nodes = append(u.Nodes, nd)
+	}
+	return u, "distinct-packages"
+}
+
 // GenCollide draws a universe and adds one or two pairs of messages with ONE schema name: a message
 // N<a> nested in a message M<p>, and a top-level message M<p>_N<a> of the same package (valid
 // protobuf; lib/j5schema names both pkg.M<p>_N<a>). The two differ in their reference fields
